@@ -113,7 +113,7 @@ def main(argv=None) -> int:
     env.setup_path()
     mod = importlib.import_module(f"qv.props.{prop.lower()}")
     t0 = time.time()
-    workdir = os.path.join(WORK, prop)
+    workdir = os.path.join(WORK, f"{prop}-{os.getpid()}")  # unique per invocation: concurrent checks must not collide
     shutil.rmtree(workdir, ignore_errors=True)
     os.makedirs(workdir, exist_ok=True)
     os.makedirs(EVID, exist_ok=True)
@@ -225,7 +225,8 @@ def main(argv=None) -> int:
         "wall_s": round(wall, 2),
         "violations": len(fresh),
     }
-    if not a.replay and not a.only:
+    drill = os.path.abspath(env.REPO) != "/repo"  # mutation drill against a scratch tree: never touch the evidence
+    if not a.replay and not a.only and not drill:
         with open(os.path.join(EVID, prop + ".json"), "w") as fh:
             json.dump(evidence, fh, indent=1, default=str)
     shutil.rmtree(workdir, ignore_errors=True)
